@@ -52,7 +52,7 @@ func init() {
 			"ValidateRequest (every registered body decoder incl. YAML with non-string keys / non-finite floats, zip, csv, multipart with YAML parts; NaN/Inf parameter texts; deepObject array indexes), " +
 			"error text / ConvertErrors / ValidationErrorEncoder+DefaultErrorEncoder, ValidateResponse, Validator.Middleware, ValidationHandler (file-loaded); " +
 			"typed Go values: bodies through a user-registered decoder that hands the validator map[any]any (non-string keys), int / int32 / int64 / float64 / json.Number, nested; " +
-			"histories: the same exchange 2–4 times in one fresh child process (field repeat; with reuse on one loaded document and one router, else on fresh ones) over documents with patterns in every position document validation does not compile (texts Go's regexp accepts and rejects) and over exchanges of the general stream; non-trivial = the model reports ≥1 feature/branch",
+			"histories: the same exchange 2–4 times in one fresh child process (field repeat; with reuse on one loaded document and one router, else on fresh ones; or after another exchange against another document with patterns of the same pool, field before) over documents with patterns in every position document validation does not compile (texts Go's regexp accepts and rejects) and over exchanges of the general stream; non-trivial = the model reports ≥1 feature/branch",
 		Exhaustive: true,
 		Gen:        genC10,
 		Run:        runC10,
@@ -98,7 +98,7 @@ func runC10(c hx.Case) any {
 		}
 		// a history (the same exchange several times in one process) is about state the library keeps between calls
 		// in process-wide variables: it starts from a fresh process, so that a replay file is self-contained
-		if c10Repeat(c) >= 2 {
+		if c10Repeat(c) >= 2 || len(jlist(c["before"])) > 0 {
 			return hx.RunIsolated("C10", c, 60000)
 		}
 	}
@@ -740,6 +740,20 @@ func c10Repeat(c hx.Case) int {
 // later round comes from state the library keeps between calls (process-wide caches). The first round that does not
 // return normally is the observation (with its number).
 func c10RunTraffic(c hx.Case) any {
+	// "before": other exchanges (own documents) validated earlier in the same process; what they leave behind in
+	// process-wide state is what the main exchange starts from
+	for i, b := range jlist(c["before"]) {
+		bc, ok := b.(map[string]any)
+		if !ok {
+			continue
+		}
+		if m, ok := c10RunTrafficOnce(hx.Case(bc), nil).(map[string]any); ok {
+			if bad, _ := c10Bad(m); bad {
+				m["round"] = -(i + 1)
+				return m
+			}
+		}
+	}
 	n := c10Repeat(c)
 	var out any
 	// "reuse": every round goes through ONE loaded document and ONE router (state kept on the objects: defaults,
@@ -1086,7 +1100,9 @@ func cmpC10x(c hx.Case, impl any, reply map[string]any) hx.Verdict {
 			}
 			if !v.IM {
 				v.Detail += " (not an outcome the model allows for this input)"
-				if rd := c10Int(im["round"]); rd > 0 {
+				if rd := c10Int(im["round"]); rd < 0 {
+					v.Detail += fmt.Sprintf(" in exchange %d of the list \"before\" (run first in the same process)", -rd)
+				} else if rd > 0 {
 					v.Detail += fmt.Sprintf(" in round %d of %d of the same exchange in one process", rd, c10Repeat(c))
 				}
 			}
@@ -1198,6 +1214,19 @@ func genC10(ctx *hx.Ctx, emit func(hx.Case)) {
 		}
 		c := c10HistoryTraffic(r)
 		c["reuse"] = r.Bool()
+		if i%4 == 1 {
+			// another document with patterns of the same pool first (typed string there → compiled by ITS gate, or
+			// untyped → compiled by its first validation), then this exchange once
+			b := c10HistoryTraffic(r)
+			delete(b, "repeat")
+			if r.Bool() {
+				// … as `type: string` schemas: the other document's GATE compiles them (and rejects the document when
+				// one does not compile — a rejected document has been through the cache all the same)
+				c10TypePatterns(b["doc"])
+			}
+			c["before"] = []any{map[string]any(b)}
+			c["repeat"] = 1
+		}
 		emit(c)
 	}
 }
@@ -1288,6 +1317,23 @@ var c10StatePool = []string{
 }
 
 var c10StateBodies = []string{`"abc"`, `"tmp-x"`, `{"n":"abc"}`, `["abc","y"]`, `{"k":"abc"}`, `""`, `1`, `null`, `{"n":1}`}
+
+// c10TypePatterns: every schema with a pattern and no type becomes a string schema
+func c10TypePatterns(v any) {
+	switch x := v.(type) {
+	case map[string]any:
+		if _, ok := x["pattern"].(string); ok && x["type"] == nil {
+			x["type"] = "string"
+		}
+		for _, e := range x { // no random choice, no output order: the order of the walk does not matter
+			c10TypePatterns(e)
+		}
+	case []any:
+		for _, e := range x {
+			c10TypePatterns(e)
+		}
+	}
+}
 
 // c10HistoryTraffic: a small document whose request body, query parameter, header parameter, response body and
 // response header are described by schemas of c10StatePool, string-valued traffic for each of them, and the exchange
@@ -2118,7 +2164,7 @@ func shrinkC10(c hx.Case) []hx.Case {
 	case "traffic":
 		doc, _ := c["doc"].(map[string]any)
 		rq, _ := c["req"].(map[string]any)
-		costly = c10DocHasRefCycle(doc) || c10HugeIndex(jstr(rq, "query")) || c10Repeat(c) >= 2
+		costly = c10DocHasRefCycle(doc) || c10HugeIndex(jstr(rq, "query")) || c10Repeat(c) >= 2 || len(jlist(c["before"])) > 0
 	}
 	if costly {
 		c10CostlyShrinkRounds++
